@@ -42,7 +42,7 @@ REQUIRED_THEOREMS = ['CfVerif.C15.' + n for n in (
     'views_quat_rigid_partial', 'views_quat_sign_partial', 'views_rotvec_quat_agree_partial', 'axis_zero_when_theta_zero', 'live_axis_counterexample', 'rodrigues_zero',
     'rodrigues_eq_pose',
     'rodrigues_neg_eq_transpose',
-    'solver_projection_eq_types', 'angle_behind_base_station',
+    'solver_projection_eq_types', 'angle_behind_base_station', 'heap_invariant', 'pose_value_independent', 'caller_arrays_untouched', 'pose_arrays_never_written', 'heap_refines_values', 'aliasing_counterexample', 'gen_pose_copy_discipline',
     'ippe_axes',
     'ippe_image_consistent',
     'ippe_rotation_consistent',
@@ -336,6 +336,30 @@ def extract(ctx):
     g.string('poseFromQuatReturn', ast.unparse(the_return(X.find(pose, 'from_quat'))))
     g.string('poseRotVecProp', ast.unparse(the_return(X.find(pose, 'rot_vec'))))
     g.string('poseRotQuatProp', ast.unparse(the_return(X.find(pose, 'rot_quat'))))
+    # the copy discipline the heap model (Model/C15: Heap) rests on: every store to an attribute of `self` in class Pose,
+    # and every construct that could write into an EXISTING array (augmented assignment, subscript/slice store, `out=`,
+    # method calls on the attribute arrays, np.copyto/np.put...)
+    stores, inplace = [], []
+    for meth in [n for n in pose.body if isinstance(n, (ast.FunctionDef, ast.AsyncFunctionDef))]:
+        for n in sorted((m for m in ast.walk(meth) if hasattr(m, 'lineno')), key=lambda m: (m.lineno, m.col_offset)):
+            if isinstance(n, ast.Assign):
+                for tg in n.targets:
+                    for el in (tg.elts if isinstance(tg, (ast.Tuple, ast.List)) else [tg]):
+                        if isinstance(el, ast.Attribute) and ast.unparse(el).startswith('self.'):
+                            stores.append('%s: %s = %s' % (meth.name, ast.unparse(el), ast.unparse(n.value)))
+                        elif isinstance(el, (ast.Subscript, ast.Starred)) or (isinstance(el, ast.Attribute) and not ast.unparse(el).startswith('self.')):
+                            inplace.append('%s: %s' % (meth.name, ast.unparse(n)))
+            elif isinstance(n, ast.AnnAssign) and n.value is not None and not isinstance(n.target, ast.Name):
+                stores.append('%s: %s = %s' % (meth.name, ast.unparse(n.target), ast.unparse(n.value)))
+            elif isinstance(n, (ast.AugAssign, ast.Delete)):
+                inplace.append('%s: %s' % (meth.name, ast.unparse(n)))
+            elif isinstance(n, ast.Call):
+                fn = ast.unparse(n.func)
+                if any(k.arg == 'out' for k in n.keywords) or fn in ('np.copyto', 'np.put', 'np.place', 'np.putmask', 'np.fill_diagonal', 'setattr') \
+                        or (isinstance(n.func, ast.Attribute) and ast.unparse(n.func.value) in ('self._R_matrix', 'self._t_vec', 'self.rot_matrix', 'self.translation')):
+                    inplace.append('%s: %s' % (meth.name, ast.unparse(n)))
+    g.strings('poseAttrStores', stores)
+    g.strings('poseInPlaceWrites', inplace)
     f = X.find(pose, 'scale')
     X.expect(arg_names(f) == ['self', 'scale'], 'Pose.scale: argument list changed')
     asg = assigns_of(f)
@@ -543,6 +567,198 @@ def real_op(op, a):
     except Exception as e:
         return 'err', exc_enum(e)
     raise RuntimeError('unknown op ' + op)
+
+
+
+# ---- object level: histories of Pose objects sharing ndarrays (heap / aliasing view) ---------------------------------
+OPCODE = {'new': 0, 'write': 1, 'construct': 2, 'copy': 3, 'scale': 4, 'compose': 5, 'invcompose': 6, 'transform': 7, 'invtransform': 8}
+
+
+def gen_history(rng, mats, n_ops):
+    """a random well-formed history with plenty of sharing: several poses from the SAME ndarrays, poses cloned from another
+    pose's rot_matrix/translation, shallow copies, scale of one of them, caller writes into arrays poses were built from.
+    Events are tuples; cell addresses follow the model's allocation order (new +1, construct +2, scale +1, compose +2,
+    transform +1).  Returns (events, tags)."""
+    kinds, owner, objs = [], [], []          # per cell: 'm'/'v', 'c'/'p'; per object: [r, t]
+    ev, tags = [], set()
+    used_by = {}                              # cell -> number of constructs from it
+
+    def vec():
+        return [rng.choice([0.0, 1.0, rng.uniform(-5, 5)]) for _ in range(3)]
+
+    def new(kind):
+        vals = list(rng.choice(mats)[0]) if kind == 'm' else vec()
+        ev.append(('new', kind, vals))
+        kinds.append(kind)
+        owner.append('c')
+        return len(kinds) - 1
+
+    def cells_of(kind, own=None):
+        return [i for i in range(len(kinds)) if kinds[i] == kind and (own is None or owner[i] == own)]
+    m0, v0 = new('m'), new('v')
+    for _ in range(n_ops):
+        c = rng.random()
+        if c < 0.08 or not objs and c < 0.3:
+            new(rng.choice('mv'))
+        elif c < 0.30 or not objs:
+            # construct: prefer arrays that are already in use (the caller's shared arrays, another pose's own arrays)
+            ms, vs = cells_of('m'), cells_of('v')
+            r = rng.choice([i for i in ms if i in used_by] or ms) if rng.random() < 0.6 else rng.choice(ms)
+            t = rng.choice([i for i in vs if i in used_by] or vs) if rng.random() < 0.6 else rng.choice(vs)
+            if r in used_by or t in used_by:
+                tags.add('shared-ndarray')
+            if owner[r] == 'p' or owner[t] == 'p':
+                tags.add('cloned-from-pose-arrays')
+            used_by[r] = used_by.get(r, 0) + 1
+            used_by[t] = used_by.get(t, 0) + 1
+            ev.append(('construct', r, t))
+            kinds.extend(['m', 'v'])
+            owner.extend(['p', 'p'])
+            objs.append([len(kinds) - 2, len(kinds) - 1])
+            used_by[len(kinds) - 2] = used_by[len(kinds) - 1] = 1
+        elif c < 0.38:
+            p_ = rng.randrange(len(objs))
+            ev.append(('copy', p_))
+            objs.append(list(objs[p_]))
+            tags.add('shallow-copy')
+        elif c < 0.60:
+            p_ = rng.randrange(len(objs))
+            k = rng.choice([2.0, 0.5, -1.0, 3.25, rng.uniform(0.1, 10.0)])
+            ev.append(('scale', p_, k))
+            if sum(1 for o in objs if o[1] == objs[p_][1]) > 1:
+                tags.add('scale-of-object-sharing-its-array')
+            tags.add('scale')
+            kinds.append('v')
+            owner.append('p')
+            objs[p_][1] = len(kinds) - 1
+            used_by[len(kinds) - 1] = 1
+        elif c < 0.72:
+            cs = [i for i in range(len(kinds)) if owner[i] == 'c']
+            a = rng.choice([i for i in cs if i in used_by] or cs)
+            if a in used_by:
+                tags.add('caller-writes-array-a-pose-was-built-from')
+            vals = list(rng.choice(mats)[0]) if kinds[a] == 'm' else vec()
+            ev.append(('write', a, kinds[a], vals))
+        elif c < 0.86:
+            p_, q_ = rng.randrange(len(objs)), rng.randrange(len(objs))
+            ev.append((rng.choice(['compose', 'invcompose']), p_, q_))
+            kinds.extend(['m', 'v'])
+            owner.extend(['p', 'p'])
+            objs.append([len(kinds) - 2, len(kinds) - 1])
+            used_by[len(kinds) - 2] = used_by[len(kinds) - 1] = 1
+        else:
+            p_ = rng.randrange(len(objs))
+            a = rng.choice(cells_of('v'))
+            ev.append((rng.choice(['transform', 'invtransform']), p_, a))
+            kinds.append('v')
+            owner.append('c')
+    return ev, tags
+
+
+def history_line(ev):
+    out = []
+    for e in ev:
+        out.append(float(OPCODE[e[0]]))
+        if e[0] == 'new':
+            out += [0.0 if e[1] == 'm' else 1.0] + list(e[2])
+        elif e[0] == 'write':
+            out += [float(e[1]), 0.0 if e[2] == 'm' else 1.0] + list(e[3])
+        else:
+            out += [float(x) for x in e[1:]]
+    return out
+
+
+class RealHeap:
+    """the history executed on real numpy arrays and real Pose objects; `cells` mirrors the model's address space"""
+
+    def __init__(self):
+        self.cells, self.owner, self.objs = [], [], []
+
+    def step(self, e):
+        import copy
+        np, Rotation, BsV, Pose = _mods()[:4]
+        k = e[0]
+        if k == 'new':
+            self.cells.append(np.array(e[2], dtype=float).reshape((3, 3) if e[1] == 'm' else (3,)))
+            self.owner.append('c')
+        elif k == 'write':
+            a = self.cells[e[1]]
+            a[...] = np.array(e[3], dtype=float).reshape(a.shape)          # the caller writes into ITS array, in place
+        elif k == 'construct':
+            P = Pose(self.cells[e[1]], self.cells[e[2]])
+            self.objs.append(P)
+            self.cells += [P.rot_matrix, P.translation]
+            self.owner += ['p', 'p']
+        elif k == 'copy':
+            self.objs.append(copy.copy(self.objs[e[1]]))
+        elif k == 'scale':
+            self.objs[e[1]].scale(e[2])
+            self.cells.append(self.objs[e[1]].translation)
+            self.owner.append('p')
+        elif k in ('compose', 'invcompose'):
+            P, Q = self.objs[e[1]], self.objs[e[2]]
+            N = P.rotate_translate_pose(Q) if k == 'compose' else P.inv_rotate_translate_pose(Q)
+            self.objs.append(N)
+            self.cells += [N.rot_matrix, N.translation]
+            self.owner += ['p', 'p']
+        else:
+            P, x = self.objs[e[1]], self.cells[e[2]]
+            self.cells.append(np.asarray(P.rotate_translate(x) if k == 'transform' else P.inv_rotate_translate(x), dtype=float))
+            self.owner.append('c')
+
+    def observe(self):
+        """(values of all Pose objects, values of all caller arrays)"""
+        return ([_flat(P.rot_matrix) + _flat(P.translation) for P in self.objs],
+                [_flat(c) for c, o in zip(self.cells, self.owner) if o == 'c'])
+
+
+class ValueTwin:
+    """the specification: poses and arrays are VALUES; an event changes only the value it targets"""
+
+    def __init__(self):
+        self.cells, self.owner, self.objs = [], [], []      # cells: value or None (pose-owned: not observable as such)
+
+    def step(self, e):
+        np = _mods()[0]
+        k = e[0]
+        if k == 'new':
+            self.cells.append(np.array(e[2], dtype=float).reshape((3, 3) if e[1] == 'm' else (3,)))
+            self.owner.append('c')
+        elif k == 'write':
+            self.cells[e[1]] = np.array(e[3], dtype=float).reshape(self.cells[e[1]].shape)
+        elif k == 'construct':
+            R, t = np.array(self.cells[e[1]]), np.array(self.cells[e[2]])
+            self.objs.append((R, t))
+            self.cells += [R, t]
+            self.owner += ['p', 'p']
+        elif k == 'copy':
+            self.objs.append(self.objs[e[1]])
+        elif k == 'scale':
+            R, t = self.objs[e[1]]
+            self.objs[e[1]] = (R, t * e[2])
+            self.cells.append(t * e[2])
+            self.owner.append('p')
+        elif k in ('compose', 'invcompose'):
+            (R1, t1), (R2, t2) = self.objs[e[1]], self.objs[e[2]]
+            N = (np.dot(R1, R2), np.dot(R1, t2) + t1) if k == 'compose' else (np.dot(R1.T, R2), np.dot(R1.T, t2 - t1))
+            self.objs.append(N)
+            self.cells += [N[0], N[1]]
+            self.owner += ['p', 'p']
+        else:
+            (R, t), x = self.objs[e[1]], self.cells[e[2]]
+            self.cells.append(np.dot(R, x) + t if k == 'transform' else np.dot(R.T, x - t))
+            self.owner.append('c')
+
+    def observe(self):
+        return ([_flat(R) + _flat(t) for R, t in self.objs], [_flat(c) for c, o in zip(self.cells, self.owner) if o == 'c'])
+
+
+def real_history(ev):
+    h = RealHeap()
+    for e in ev:
+        h.step(e)
+    objs, cells = h.observe()
+    return 'ok', [float(len(objs)), float(len(cells))] + [x for o in objs for x in o] + [x for c in cells for x in c]
 
 
 TOL = {'cart': 1e-6, 'proj': 1e-6}
@@ -777,6 +993,9 @@ def gen_cases(ctx):
         add('rotvecquat', rv, tag)
     for rb, tb, rc, tc, sn, tagb, tagc, where in exact_rows() + solver_rows(rng, rvs + UNDERFLOW, 3000 if thorough else 700):
         add('pair', list(rb) + tb + list(rc) + tc + list(sn), tagb + '/' + tagc + '@' + where)
+    for _ in range(400 if thorough else 100):
+        ev, tags = gen_history(rng, mats, rng.choice([4, 8, 14, 25]))
+        cases.append(('heap', history_line(ev), 'history:' + ('+'.join(sorted(tags)) or 'plain'), ev))
     for _ in range(300 if thorough else 80):
         q = [rng.gauss(0, 1) * rng.choice([1.0, 1.0, 3.0, 0.01]) for _ in range(4)]
         add('quatmat', q, 'random-quat')
@@ -792,14 +1011,21 @@ def gen_cases(ctx):
 
 def correspond(ctx):
     cases = gen_cases(ctx)
-    replies = ctx.lean(DRIVER, [line_of(op, a) for op, a, _ in cases])
-    for (op, a, tag), rep in zip(cases, replies):
-        real = real_op(op, a)
+    replies = ctx.lean(DRIVER, [line_of(c[0], c[1]) for c in cases])
+    for c, rep in zip(cases, replies):
+        op, a, tag = c[:3]
+        if op == 'heap':
+            real = real_history(c[3])
+            for t in tag[len('history:'):].split('+'):
+                ctx.count('history:' + t)
+        else:
+            real = real_op(op, a)
         model = parse_reply(rep)
         ctx.count('op:' + op)
-        ctx.count('kind:' + tag.split('-of-')[0].split('*')[0].split('/')[0])
+        ctx.count('kind:' + ('history' if op == 'heap' else tag.split('-of-')[0].split('*')[0].split('/')[0]))
         ctx.count('result:' + real[0] + (':' + real[1] if real[0] == 'err' else ''))
-        ctx.case({'op': op, 'args': a, 'kind': tag}, (op,) + tuple(round(x, 9) if abs(x) < 1e15 else x for x in a))
+        desc = {'op': op, 'events': [list(e) for e in c[3]], 'kind': tag} if op == 'heap' else {'op': op, 'args': a, 'kind': tag}
+        ctx.case(desc, (op,) + tuple(round(x, 9) if abs(x) < 1e15 else x for x in a))
         tol = TOL.get(op, 1e-9)
         # which branches of the model does the case exercise?
         if op == 'fromcart':
@@ -831,7 +1057,7 @@ def correspond(ctx):
         if real[0] == 'ok' and any(math.isnan(x) for x in real[1]):
             ctx.count('result:nan')
         if not ok:
-            ctx.disagree(op, {'op': op, 'args': a, 'kind': tag}, str(model)[:300], str(real)[:300])
+            ctx.disagree(op, desc, str(model)[:300], str(real)[:300])
 
 
 # ---- direct evaluation of the property on the real code (failing-input search) -------------------------------------
@@ -934,6 +1160,36 @@ def search(ctx):
             ctx.witness('pose-views', 'rot_vec view differs from the rotation vector the pose was built from', inp, got=_flat(P.rot_vec))
         ctx.count('search:pose:' + tag)
 
+    # (2b) pose VALUES do not depend on which other objects share their input arrays: random construction / sharing /
+    # scale / compose histories on real Pose objects and real ndarrays; after EVERY event every Pose object and every
+    # caller array must have the value the value-level specification gives it
+    mats = [(rvec_to_matrix(rv), tag) for rv, tag in rvs[:40]]
+    for trial in range(600 if thorough else 150):
+        ev, tags = gen_history(rng, mats, rng.choice([4, 8, 14, 25]))
+        real, twin = RealHeap(), ValueTwin()
+        for t in tags:
+            ctx.count('search:history:' + t)
+        for n, e in enumerate(ev):
+            try:
+                real.step(e)
+            except Exception as ex:
+                ctx.witness('pose-history-raises', 'event raises %s' % exc_enum(ex), {'events': [list(x) for x in ev[:n + 1]]})
+                break
+            twin.step(e)
+            (ro, rc), (to, tc) = real.observe(), twin.observe()
+            bad = [('pose object %d' % i) for i, (x, y) in enumerate(zip(ro, to)) if far(x, y, 1e-12)] + \
+                  [('caller array %d' % i) for i, (x, y) in enumerate(zip(rc, tc)) if far(x, y, 1e-12)]
+            if bad:
+                target = ('pose object %d' % e[1]) if e[0] == 'scale' else None
+                others = [b for b in bad if b != target]
+                ctx.witness('pose-aliasing' if others else 'pose-history-value',
+                            'after event %d %s the value of %s is not what it was / what the event should produce: an operation on one '
+                            'Pose (or on the caller\'s own array) changed another object' % (n, list(e[:2]), ', '.join(others or bad)),
+                            {'events': [list(x) for x in ev[:n + 1]], 'changed': bad}, got=[ro[int(b.split()[-1])] for b in bad if b.startswith('pose')][:2],
+                            want=[to[int(b.split()[-1])] for b in bad if b.startswith('pose')][:2])
+                break
+        ctx.count('search:history')
+
     # (3) the solver's vectorised projection equals the projection defined by the types, on the real code
     defs = Solution()
     rows = [(tuple(w['bs_params'][:3]), list(w['bs_params'][3:]), tuple(w['cf_params'][:3]), list(w['cf_params'][3:]),
@@ -978,6 +1234,16 @@ def replay(ctx, rp):
         tols = pair_tolerances(local, inp.get('where', ''))
         print('sensor in base-station frame:', _flat(local), 'solver:', _flat(got), 'types:', list(want))
         return any(not (abs(float(got[j]) - float(want[j])) <= tols[j]) for j in (0, 1))
+    if 'events' in inp:
+        real, twin = RealHeap(), ValueTwin()
+        for e in inp['events']:
+            e = tuple(e)
+            real.step(e)
+            twin.step(e)
+        (ro, rc), (to, tc) = real.observe(), twin.observe()
+        bad = [i for i, (x, y) in enumerate(zip(ro + rc, to + tc)) if not np.allclose(x, y, rtol=0, atol=1e-12)]
+        print('history of %d events; values differing from the value-level specification:' % len(inp['events']), bad)
+        return bool(bad)
     if rp.get('kind') == 'no-failing-input-found':
         print('nothing to replay: the file names the obligations that no longer check; run ./check C15:', [b.get('name') for b in rp.get('broken', [])])
         return False
